@@ -104,6 +104,9 @@ def gen_population(rng, cls, n, d):
     return pts, fits
 
 
+NEAR_INTEGER_PRODUCTS = [(n_, k_) for n_ in range(5, 61) for k_ in range(2, n_) if n_ * (k_ / n_) < k_]
+
+
 def make_case(seed, idx, tier):
     rng = gen.case_rng("C15", seed, idx)
     if idx % 100 == 99:
@@ -129,6 +132,14 @@ def make_case(seed, idx, tier):
     trunc = rng.choice([1.0, 1.0, 0.7, 0.5, 0.3, 0.1, 0.9])
     if idx % 25 == 7:
         trunc = min(1.0, 1.0 / n + 1e-9) if n > 1 else 1.0  # K == 1
+    if idx % 25 == 13:
+        # n * truncation_factor a hair *below* an integer (a factor computed as k / n, or a decimal such as 0.58 with n = 50): the kept
+        # count is the integer part of that product, nothing is to be rounded up
+        n, k_ = rng.choice(NEAR_INTEGER_PRODUCTS)
+        trunc = k_ / n if (n, k_) != (50, 29) or rng.random() < 0.5 else 0.58
+        if cls == "collinear":
+            cls = "uniform" if "uniform" in CLASSES else CLASSES[0]
+        pts, fits = gen_population(rng, cls, n, d)
     maximize = bool((idx // len(CLASSES)) % 2)
     if maximize:
         fits = [-f for f in fits]
@@ -242,6 +253,8 @@ def run_case(desc):
         return {"violations": [], "cov": cov, "nontrivial": [], "sample": None}
     if K == 1:
         cov["K_equals_1"] += 1
+    if 0 < (K + 1) - n * trunc < 1e-9:
+        cov["product_n_times_truncation_factor_just_below_an_integer"] += 1
     try:
         n_objs = desc.get("n_problem_objects", 1)
         cov[f"problem_objects.{min(n_objs, 3)}"] += 1
